@@ -160,3 +160,123 @@ for _name, (_op, _content, _custom, _pps) in OPS.items():
             yield ("raises nothing", out.exc is None)
             yield ("scenario unchanged",) + approx_parts(inp["snap_sc"], inp["sc"], 0, F, path="scenario")
             yield ("planning problems unchanged",) + approx_parts(inp["snap_pps"], inp["pps"], 0, F, path="planning_problem_set")
+
+
+# ------------------------------------------------------------------------------ drawing the lanelet network
+# MPRenderer.draw_lanelet_network works on numpy views of the lanelets' own vertex arrays (lanelet.left_vertices[:, :2], ...)
+# and edits temporary copies of them in place (line-marking ends, centre line coloured by a traffic light, stop line).
+# pyvc models basic-indexing results / asarray / reshape / transpose as views that write through to their base
+# (pyvc/objects.py NDArr.parent), so an edit of a view instead of a copy changes the snapshot comparison below.
+
+import commonroad.visualization.draw_params as dp  # noqa: E402
+from commonroad.common.common_lanelet import LineMarking, StopLine  # noqa: E402
+from commonroad.scenario.lanelet import Lanelet, LaneletNetwork  # noqa: E402
+from commonroad.scenario.traffic_light import TrafficLight, TrafficLightCycle, TrafficLightCycleElement, TrafficLightDirection, TrafficLightState  # noqa: E402
+from pyvc.runner import summary_provider  # noqa: E402
+
+
+@summary_provider("c18_draw")
+def _draw_summaries():
+    """callees of draw_lanelet_network that are outside this contract: the colour map (never evaluated with unique_colors
+    off), the symbol drawing of traffic lights (TrafficLight.draw -> draw_traffic_light_signs: image boxes), and the two
+    Line2D / LineCollection subclasses of visualization/util.py, whose constructors only record"""
+    from pyvc.core import Unsupported
+    from pyvc.interp import ModelFn
+    from pyvc.libmodels import MplObj
+
+    def never(it, a, k):
+        raise Unsupported("colour map evaluated (unique_colors is off in this contract)")
+
+    def record(kind):
+        def init(it, args, kwargs):
+            it.setattr(args[0], "_recorded", MplObj(kind, list(args[1:]), dict(kwargs)))
+            return None
+        return init
+
+    return {
+        "commonroad.visualization.util.colormap_idx": lambda it, a, k: ModelFn(never, "colormap"),
+        "commonroad.scenario.traffic_light.TrafficLight.draw": lambda it, a, k: None,
+        "commonroad.visualization.util.LineDataUnits.__init__": record("LineDataUnits"),
+        "commonroad.visualization.util.LineCollectionDataUnits.__init__": record("LineCollectionDataUnits"),
+    }
+
+
+DRAW_CASES = {
+    "solid markings, centre line coloured by a traffic light, stop line": dict(labels=False, three_d=False),
+    "3-D boundary polylines, solid markings": dict(labels=False, three_d=True),
+    "3-D boundary polylines (x increasing by >= 1 per vertex), solid markings, labels": dict(labels=True, three_d=True),
+}
+
+
+class DrawReadOnly(Contract):
+    prop = "C18"
+    target = "commonroad.visualization.mp_renderer.MPRenderer.draw_lanelet_network"
+    summaries = ("c18_draw",)
+    budget_s = 1800
+    unroll = {"commonroad.scenario.lanelet.Lanelet.interpolate_position": 3, "commonroad.common.util.make_valid_orientation": 3}  # 3 vertices; unwinding assertion on
+    describe = "every observable attribute of the lanelet network (vertex arrays included) is unchanged by drawing it"
+
+    def __init__(self, name):
+        self.name = name
+        self.case = "read-only operation: drawing the lanelet network (%s)" % name
+        self.opts = DRAW_CASES[name]
+
+    def build(self, F):
+        from contracts.c19 import renderer_for
+
+        three_d = self.opts["three_d"]
+        net = F.new(LaneletNetwork)
+
+        def sym_line(name, n=3):
+            if three_d:
+                return F.array([[F.real("%s%dx" % (name, i)), F.real("%s%dy" % (name, i)), F.real("%s%dz" % (name, i))] for i in range(n)])
+            return F.array([[F.real("%s%dx" % (name, i)), F.real("%s%dy" % (name, i))] for i in range(n)])
+
+        def line(y, x0=20.0):
+            pts = [[x0, y], [x0 + 5.0, y], [x0 + 20.0, y + 0.5]]
+            return F.array([p + [0.25] for p in pts] if three_d else pts)
+
+        mean = lambda a, b: 0.5 * (a + b) if F.native else F.interp.binop(ast.Mult, 0.5, F.interp.binop(ast.Add, a, b))
+        left, right = sym_line("d1l"), sym_line("d1r")
+        if self.opts["labels"]:
+            # the label position divides by the length of a centre-line segment: consecutive vertices are at least 1 m apart in x
+            k = 3 if three_d else 2
+            for arr in (left, right):
+                e = F.elems(arr)
+                for i in range(2):
+                    F.assume(R(e[(i + 1) * k]) - R(e[i * k]) >= 1)
+        stop = F.new(StopLine, F.array([1.0, 0.0]), F.array([1.5, 3.0]), LineMarking.SOLID, set(), {201})  # concrete: not degenerate
+        l1 = F.new(Lanelet, left, mean(left, right), right, 1, [], [2], None, None, None, None, LineMarking.SOLID, LineMarking.BROAD_SOLID, stop, traffic_lights={201})
+        l2l, l2r = line(3.0), line(0.0)
+        l2 = F.new(Lanelet, l2l, mean(l2l, l2r), l2r, 2, [1], [], line_marking_left_vertices=LineMarking.SOLID, line_marking_right_vertices=LineMarking.NO_MARKING)
+        for la in (l1, l2):
+            F.method(net, "add_lanelet", la)
+        cyc = F.new(TrafficLightCycle, [F.new(TrafficLightCycleElement, TrafficLightState.RED, 15), F.new(TrafficLightCycleElement, TrafficLightState.RED_YELLOW, 10)], 0, True)
+        F.method(net, "add_traffic_light", F.new(TrafficLight, 201, pos(F, "dlight_p"), cyc, direction=TrafficLightDirection.ALL, active=True), set())
+        params = F.new(dp.MPDrawParams)
+        ln = F.attr(params, "lanelet_network")
+        lp = F.attr(ln, "lanelet")
+        for k, v in (("draw_line_markings", True), ("draw_stop_line", True), ("draw_start_and_direction", False), ("show_label", self.opts["labels"]),
+                     ("draw_border_vertices", True), ("unique_colors", False), ("colormap_tangent", False)):
+            F.setattr(lp, k, v)
+        F.setattr(F.attr(ln, "traffic_light"), "draw_traffic_lights", True)
+        F.setattr(F.attr(ln, "traffic_sign"), "draw_traffic_signs", False)
+        F.setattr(F.attr(ln, "intersection"), "draw_intersections", False)
+        return {"net": net, "params": params, "r": renderer_for(F, params), "args": [], "snap": F.snapshot(net)}
+
+    def invoke(self, F, inp):
+        F.method(inp["r"], "draw_lanelet_network", inp["net"], F.attr(inp["params"], "lanelet_network"))
+
+    def post(self, F, inp, out):
+        from spec.approx import approx_parts
+
+        yield ("raises nothing", out.exc is None)
+        yield ("lanelet network unchanged",) + approx_parts(inp["snap"], inp["net"], 0, F, path="lanelet_network")
+
+
+import os  # noqa: E402
+
+for _n in DRAW_CASES:
+    if DRAW_CASES[_n]["labels"] and os.environ.get("VERIF_TIER") != "thorough":
+        continue  # the label-angle paths (atan2, degrees) take 4-5 min: thorough tier only
+    register(DrawReadOnly(_n))
